@@ -241,6 +241,8 @@ def main(argv=None):
             if e_['outcome'] in ('missed', 'other_property_only', 'inapplicable'): undecided.append('self-test: sensitivity catalogue entry %s is %s' % (e_['id'], e_['outcome']))
         for e_ in extras.get('equivalent_edits') or []:
             if e_['outcome'] == 'false_alarm': undecided.append('self-test: behaviour-preserving edit %s fails %s' % (e_['id'], e_.get('obligations')))
+        for l_ in extras.get('cross_unit_links') or []:
+            if l_.get('status') != 'ok': undecided.append('self-test: cross-unit link %s: %s' % (l_.get('link'), l_.get('detail')))
         for k_ in extras.get('dependency_validation') or []:
             if k_.get('status') != 'ok': undecided.append('self-test: Kani validation of an assumed dependency contract: %s is %s %s' % (k_.get('harness'), k_.get('status'), k_.get('tail', '')[-120:]))
         bc = extras.get('bounded_corpus') or {}
